@@ -93,6 +93,35 @@ def transcription_nested(size, strict):
                bounds=dict(ref=n, est=m), timeout_s=1500)
 
 
+def transcription_strict_fine(size):
+    """strict=True never scores above strict=False, with note times on the 1e-5 s lattice: the rounding of onset/offset
+    distances to N_DECIMALS=4 is then a real rounding (on the 1e-4 lattice of the other jobs it is the identity)"""
+    n, m = size
+
+    def build(ctx):
+        return T.b_notes(tol_kw=('onset_tolerance', 'offset_min_tolerance'), grid=100000)(ctx, size)
+
+    def body(A, inp):
+        ri, rp = inp['ref']
+        ei, ep = inp['est']
+        on, om = inp['kw']['onset_tolerance'], inp['kw']['offset_min_tolerance']
+        calls = [
+            ('onset', lambda s: TR.onset_precision_recall_f1(ri, ei, onset_tolerance=on, strict=s)),
+            ('offset', lambda s: TR.offset_precision_recall_f1(ri, ei, offset_ratio=0.25, offset_min_tolerance=om, strict=s)),
+            ('overlap', lambda s: TR.precision_recall_f1_overlap(ri, rp, ei, ep, onset_tolerance=on, offset_ratio=0.25,
+                                                                  offset_min_tolerance=om, strict=s)[:3]),
+        ]
+        for nm, f in calls:
+            a, b = f(True), f(False)
+            for i, k in enumerate(('P', 'R', 'F')):
+                A.observe('%s.%s' % (nm, k), (a[i], b[i]))
+                A.require(A.le(a[i], b[i]), 'transcription.%s.%s:strict<=non-strict(1e-5 s lattice)' % (nm, k))
+    return Job('C07', 'transcription.strict-vs-nonstrict[%dx%d,1e-5 lattice]' % (n, m), build, body, exact_floats=False,
+               funcs=['transcription.onset_precision_recall_f1', 'transcription.offset_precision_recall_f1', 'transcription.precision_recall_f1_overlap',
+                      'transcription.match_notes', 'transcription.match_note_onsets', 'transcription.match_note_offsets'],
+               bounds=dict(ref=n, est=m, time_lattice='1e-5 s'), timeout_s=1500)
+
+
 def match_events_mono(n, m):
     """hit count of util.match_events is monotone in the window, items supplied in any order"""
     import mir_eval.util as U
@@ -190,4 +219,6 @@ def jobs(tier):
     for size in ([(1, 1), (1, 2)] if q else [(1, 1), (1, 2), (2, 1)]):
         js.append(transcription_nested(size, False))
     js.append(transcription_nested((1, 2), True))
+    for size in ([(1, 1)] if q else [(1, 1), (1, 2), (2, 1)]):
+        js.append(transcription_strict_fine(size))
     return js
